@@ -93,3 +93,16 @@ Theorem early_return_before_try_refuted :
   exists stmts, pev_count PExit (call_log 1 stmts) = 0.
 Proof. exists [Ret]. reflexivity. Qed.
 Print Assumptions early_return_before_try_refuted.
+
+(* (12) exit() has to close the bar and cancel the tracked timer on EVERY call, also when the bar spans no steps: with an
+   exit() that returns early for an empty bar (a seeded change), the calls enter(); update(0); exit() of a computation
+   with nothing to do leave a timer armed, and after it fires and its callback runs another one is armed -- for ever.
+   With the exit() of the code the same trace ends quiescent (theorem quiescent). *)
+Theorem early_exit_refuted :
+  let tr := [Enter; Update; Exit] in
+  armed_ids (fold_left (step_early true) tr init) <> [] /\
+  armed_ids (fold_left (step_early true) (tr ++ [Fire 1; Run]) init) <> [] /\
+  armed_ids (fold_left (step_early true) (tr ++ [Fire 1; Run; Fire 2; Run]) init) <> [] /\
+  armed_ids (fold_left step tr init) = [].
+Proof. cbv zeta. repeat split; vm_compute; try discriminate; reflexivity. Qed.
+Print Assumptions early_exit_refuted.
